@@ -44,11 +44,11 @@ def generate(seed, tier, k):
     dim = 3 if (fk in ("Field", "Mixed3", "Scalar", "Mixed2") and r.random() < (0.5 if case == "array" else 0.15)) else 2
     if fk in ("PlaneStrain", "Axi", "Mixed3ps", "Mixed3axi", "PlaneStrainAsField"):
         dim = 2
-    allow = ("linear", "linear", "quadratic", "full", "simplex", "simplex2") if not fk.startswith("Mixed") else ("linear",)
+    allow = ("linear", "linear", "quadratic", "full", "simplex", "simplex2") if not fk.startswith("Mixed") else ("linear", "linear", "quadratic", "full", "simplex2")
     if case == "form":
         allow = ("linear", "linear", "simplex") if dim == 2 else ("simplex", "linear")
         if fk.startswith("Mixed"):
-            allow = ("linear",)
+            allow = ("linear", "quadratic") if dim == 2 else ("linear",)
     mesh = gen.gen_mesh(r, dim=dim, allow=allow, max_cells=6 if case == "array" else (4 if dim == 2 else 1))
     doc = {"kind": "c02", "seed": seed, "mesh": mesh, "fieldkind": fk, "case": case, "region": {}}
     uniform_ok = not mesh.get("perturb") and not mesh.get("convert")
